@@ -8,6 +8,9 @@
 // (own secret-connection and node-info handshake, raw block-sync messages): an
 // honest one and a team of malicious ones that serve tampered blocks of a real
 // source chain with validator-set changes. See scenario.go for the oracle.
+// Crash-resume scenarios (crashresume.go): the syncing node is killed by the
+// durable-write failpoint while it fast-syncs from honest peers and is started
+// again on the same directory.
 package main
 
 import (
